@@ -62,7 +62,7 @@ def run(prop, tier, ents, maxdepth_of, scratch, timeout, level="model_checking",
             continue
         vlib.read_obs(ob)
         if ob["reader"] == "ok":
-            designs.append(design_record(e, ob, maxdepth_of(e), clk, BUDGET.get(tier, 4000)))
+            designs.append(design_record(e, ob, maxdepth_of(e), clk, e.get("budget", {}).get(tier) or BUDGET.get(tier, 4000)))
         else:
             unread.append((e, ob))
     for e, ob in rejected:
@@ -111,7 +111,7 @@ def run(prop, tier, ents, maxdepth_of, scratch, timeout, level="model_checking",
             payload["how_to"] = f"./check {prop} --replay <this file>"
         V.violation(key, payload)
     nontrivial = sum(1 for k, v in stats.items() if v[0] >= 2 and v[1] >= 2)
-    truncated = sorted(k for k, v in stats.items() if v[0] >= BUDGET.get(tier, 4000))
+    truncated = sorted(k for k, v in stats.items() if v[0] >= (by_name[k].get("budget", {}).get(tier) or BUDGET.get(tier, 4000)))
     samples = []
     for d in designs[:: max(1, len(designs) // 3)][:3]:
         samples.append({"id": d["id"], "family": by_name[d["id"]]["family"], "source_py": ADL.to_python(by_name[d["id"]]),
